@@ -385,10 +385,14 @@ ImplVsRefStep == (hist # <<>> /\ Last.op = "new") =>
   /\ (H \cap {"field-kw-only", "no-init"} = {}) => ImplBind(cfg, Last.a, Range(Last.kw)) = Last.res
   /\ ("no-init" \in H /\ Last.res # "ok") => ImplBind(cfg, Last.a, Range(Last.kw)) # Last.res
 
+\* introspection (dataclasses.fields / __dataclass_params__) echoes the declaration
+RefIntrospect(c) == [params |-> c.o,
+                     fields |-> [i \in FIdx(c) |-> [init |-> c.f[i].init, repr |-> c.f[i].repr, cmp |-> c.f[i].cmp,
+                                                    hash |-> c.f[i].hash, dflt |-> c.f[i].dflt]]]
 Leaf == hist # <<>> /\ (~open \/ Len(hist) = MaxLen \/ (Len(cfg.f) = 0 /\ Len(objs) = 2))
 HzSeq(c) == SelectSeq(HzNames, LAMBDA h : h \in Hazards(c))
 CfgRecord(c) == [id |-> c.id, kind |-> "cfg", deferr |-> RefDefError(c), margs |-> RefMatchArgs(c), hz |-> HzSeq(c),
-                 std |-> StdInit(c), hashf |-> Derive(c).hashf,
+                 std |-> StdInit(c), hashf |-> Derive(c).hashf, intro |-> RefIntrospect(c),
                  bare |-> [i \in FIdx(c) |-> Bare(c.f[i])], impl_deferr |-> ImplDefError(c)]
 \* cases mode: one record per configuration (initial state) and one per leaf history
 Publish == Mode = "cases" =>
